@@ -12,6 +12,10 @@ const vPrintable = " !\"#$%&'()*+,-./0123456789:;<=>?@ABCDEFGHIJKLMNOPQRSTUVWXYZ
 // (one of each case), a digit, a dot
 const vLexAlpha = " '\"`~^=!*+-/><&|()[],;aB1."
 
+// reduced class alphabets for longer inputs: one representative per class
+const vLexAlpha11 = " '\"<=!&(,a1"
+const vLexAlpha7 = " '<=(a1"
+
 func vIsDelim(c byte) bool {
 	r := c == ' '
 	for i := 0; i < len(vDelims); i++ {
@@ -47,8 +51,13 @@ func vQuoteScan(q string) (balanced bool, outside []bool) {
 
 func VH_C16_A(n int, alpha int) {
 	al := vLexAlpha
-	if alpha == 1 {
+	switch alpha {
+	case 1:
 		al = vPrintable
+	case 2:
+		al = vLexAlpha11
+	case 3:
+		al = vLexAlpha7
 	}
 	vFreeParseFloat(true)
 	q := vNondetString("q", n, n, al)
@@ -156,8 +165,13 @@ func vExtent(q string, t *Token) (int, int) {
 // shifts the later offsets by one.
 func VH_C16_B(n int, alpha int) {
 	al := vLexAlpha
-	if alpha == 1 {
+	switch alpha {
+	case 1:
 		al = vPrintable
+	case 2:
+		al = vLexAlpha11
+	case 3:
+		al = vLexAlpha7
 	}
 	vFreeParseFloat(true)
 	q := vNondetString("q", n, n, al)
